@@ -12,15 +12,36 @@
 #include "parameter_reader.hpp"
 #include "simulation_initializer.hpp"
 #include <filesystem>
+#include <map>
+#include <set>
 #include <csignal>
 #include <unistd.h>
 
+#include <locale>
+struct grouping_punct : std::numpunct<char> {
+    char do_thousands_sep() const override { return ','; }
+    std::string do_grouping() const override { return "\3"; }
+};
 static void on_alarm(int){ const char m[] = " TIMEOUT\n"; ssize_t r = write(1, m, sizeof m - 1); (void)r; _exit(3); }
 // budget in seconds of CPU time of this process (robust against a loaded machine), with a wall-clock fallback of ten times that
 #include <sys/time.h>
 static void verif_budget(unsigned s){ struct itimerval it; it.it_interval.tv_sec = 0; it.it_interval.tv_usec = 0; it.it_value.tv_sec = s; it.it_value.tv_usec = 0; setitimer(ITIMER_PROF, &it, nullptr); alarm(10 * s); }
 
 static std::string clean(std::string w){ for (char& ch : w) if (ch==' '||ch=='|'||ch=='\n') ch='_'; return w.substr(0, 200); }
+
+static bool closed_oriented_surface(const cell_ptr& c){
+    std::map<std::pair<unsigned,unsigned>, int> he; size_t nf = 0; std::set<unsigned> used;
+    for (const face& f : c->get_face_lst()) if (f.is_used()){
+        auto [a,b,d] = f.get_node_ids(); nf++;
+        if (a==b||b==d||a==d) return false;
+        unsigned v[3] = {a,b,d};
+        for (int k=0;k<3;k++){ if (v[k] >= c->get_node_lst().size() || !c->get_node_lst()[v[k]].is_used()) return false; used.insert(v[k]);
+            if (++he[{v[k], v[(k+1)%3]}] > 1) return false; }
+    }
+    if (nf < 4) return false;
+    for (auto& kv : he) if (!he.count({kv.first.second, kv.first.first})) return false;
+    return (long)used.size() - (long)he.size()/2 + (long)nf == 2;
+}
 
 static void dump_params(const global_simulation_parameters& g, const std::vector<cell_type_param_ptr>& cts){
     std::cout << "OK G " << clean(g.input_mesh_path_) << " " << clean(g.output_folder_path_) << " " << g.perform_initial_triangulation_ << " " << g.enable_edge_swap_operation_
@@ -59,7 +80,11 @@ int main(){
                     if (((st >> 20) & 3) != 0 && lmr.can_be_merged(e, c)) lmr.merge_edge(e, c, work); else lmr.split_edge(e, c, work);
                 }
                 for (size_t i = 0; i < cells.size(); i++){ cells[i]->set_id((unsigned)i); cells[i]->set_local_id((unsigned)i); }
-                // via 0: the simulation's path (write); 1, 2: the public single-file entry points, which compact the cells themselves
+                // via 0: the simulation's path (write); 1, 2: the public single-file entry points, which compact the cells themselves;
+                // +10: the host program has installed a global C++ locale that groups digits (1,000) and uses a decimal comma
+                std::locale saved_locale; bool grouped = via >= 10;
+                if (grouped){ saved_locale = std::locale::global(std::locale(std::locale::classic(), new grouping_punct)); via -= 10; }
+                struct restore_ { std::locale l; bool on; ~restore_(){ if (on) std::locale::global(l); } } restore_guard{saved_locale, grouped};
                 if (via == 1) mesh_writer::write_cell_data_file(dir + "/cells.vtk", cells);
                 else if (via == 2){ std::ofstream f_(dir + "/cells.vtk"); mesh_writer::write_cell_data_file(f_, cells); f_.close(); }
                 else mesh_writer::write(dir + "/cells.vtk", dir + "/faces.vtk", cells);
@@ -95,7 +120,10 @@ int main(){
             } else if (mode == "ST"){
                 std::string path; in >> path;
                 simulation_initializer si(path, false);
-                std::cout << "OK cells=" << si.get_cell_lst().size() << "\n";
+                std::cout << "OK cells=" << si.get_cell_lst().size();
+                // a start-up that completes hands its cells to the solver: each of them must be a closed oriented surface
+                for (const cell_ptr& c : si.get_cell_lst()) if (!closed_oriented_surface(c)) { std::cout << " INVALIDCELL"; break; }
+                std::cout << "\n";
             } else std::cout << "FATAL unknown mode\n";
         } catch (const std::exception& e){ std::cout << "EXC " << clean(e.what()) << "\n"; }
         catch (...){ std::cout << "EXCOTHER\n"; }
